@@ -1089,10 +1089,27 @@ static void gen_expr(Node *node) {
     gen_expr(node->lhs);
     push();
     gen_expr(node->rhs);
+
+    // xchg works on general purpose registers: float and double
+    // objects are exchanged as bit patterns.
+    Type *obj_ty = node->lhs->ty->base;
+    if (obj_ty->kind == TY_FLOAT)
+      println("  movd %%xmm0, %%eax");
+    else if (obj_ty->kind == TY_DOUBLE)
+      println("  movq %%xmm0, %%rax");
     pop("%rdi");
 
     int sz = node->lhs->ty->base->size;
     println("  xchg %s, (%%rdi)", reg_ax(sz));
+
+    if (obj_ty->kind == TY_FLOAT) {
+      println("  movd %%eax, %%xmm0");
+      return;
+    }
+    if (obj_ty->kind == TY_DOUBLE) {
+      println("  movq %%rax, %%xmm0");
+      return;
+    }
 
     // The old value is narrower than a register; extend it.
     if (sz == 1)
